@@ -42,12 +42,19 @@ def observe(t):
     return [idx, val, extra, hasidx], ok
 
 
+def _idxcol(lab):
+    """the new index column as the user hands it over: an object array, or (every other case) a numpy STRING array of fixed width, as np.array(list_of_names)
+    gives: the table stores a new column as given, so labels / caches built from it must not inherit its item size"""
+    s = list(lab["s"])
+    return np.array(s, dtype=object) if (len(s) + (lab["form"] == "item")) % 2 else np.array(s, dtype=str)
+
+
 def apply(t, lab):
     """-> exception class name or None"""
     a = lab["a"]
     try:
         if a == "SetCol":
-            col = np.array(list(lab["s"]), dtype=object)
+            col = _idxcol(lab)
             if lab["form"] == "item":
                 t["name"] = col
             else:
@@ -83,7 +90,7 @@ def apply(t, lab):
             else:
                 t.pop("name")
         elif a == "AddIndex":
-            col = np.array(list(lab["s"]), dtype=object)
+            col = _idxcol(lab)
             if lab["form"] == "item":
                 t["name"] = col
             else:
